@@ -10,12 +10,23 @@ import (
 
 // R16r: order of the raft Ready loop and of the apply/acknowledge path.
 var rR16r = RuleRef{Name: "R16r", Doc: "raft ready loop (raftexample serveChannels), every path of the Ready case: wal.Save (and saveSnap before it when a snapshot is present) precedes transport.Send and publishEntries; raftStorage.Append precedes Node.Advance; publishEntries precedes maybeTriggerSnapshot precedes Advance; every path ends in Advance or stop(). Apply loop: the executor runs before the result is handed to the waiting client, and before ApplyDoneC is closed; publishEntries advances appliedIndex only after the commit was handed over", Run: func(c *C) {
-	fn := c.P.Func("raftexample", "RaftNode.serveChannels")
+	// the Ready handler: the raftexample function that calls Node.Advance (serveChannels itself, or a helper the
+	// Ready case was extracted into)
+	var fn *ssa.Function
+	for _, f := range c.P.allFuncs("raftexample") {
+		for _, b := range f.Blocks {
+			for _, in := range b.Instrs {
+				if ci, ok := in.(ssa.CallInstruction); ok && callName(ci) == "Advance" && ci.Common().IsInvoke() {
+					fn = f
+				}
+			}
+		}
+	}
 	if fn == nil {
-		c.Undecided("R16r", "anchor raftexample.(*RaftNode).serveChannels")
+		c.Undecided("R16r", "the function that calls Node.Advance in package raftexample")
 		return
 	}
-	// the event loop's select: the one with a receive from Node.Ready()
+	// the event loop's select (if the handler is the loop itself): the one with a receive from Node.Ready()
 	var sel *ssa.Select
 	for _, b := range fn.Blocks {
 		for _, in := range b.Instrs {
@@ -30,11 +41,7 @@ var rR16r = RuleRef{Name: "R16r", Doc: "raft ready loop (raftexample serveChanne
 			}
 		}
 	}
-	if sel == nil {
-		c.Undecided("R16r", "select on Node.Ready() in serveChannels")
-		return
-	}
-	of := c.orderFlow(fn, func(in ssa.Instruction) bool { return in == ssa.Instruction(sel) }, true, "C|Save", "C|saveSnap", "C|Append", "C|Send", "C|publishEntries", "C|maybeTriggerSnapshot", "C|Advance", "C|ApplySnapshot")
+	of := c.orderFlow(fn, func(in ssa.Instruction) bool { return sel != nil && in == ssa.Instruction(sel) }, true, "C|Save", "C|saveSnap", "C|Append", "C|Send", "C|publishEntries", "C|maybeTriggerSnapshot", "C|Advance", "C|ApplySnapshot")
 	type need struct {
 		at   string
 		all  []string
@@ -89,7 +96,7 @@ var rR16r = RuleRef{Name: "R16r", Doc: "raft ready loop (raftexample serveChanne
 		}
 	}
 	// every path from the Ready case back to the select passed Advance (or left through stop/return)
-	{
+	if sel != nil {
 		states, live := of.F.Before(sel)
 		var bad []string
 		if live {
@@ -123,9 +130,15 @@ var rR16r = RuleRef{Name: "R16r", Doc: "raft ready loop (raftexample serveChanne
 		if cf == nil {
 			return false
 		}
-		for _, d := range c.Facts.Dispatchers {
-			if d.Parent() == cf {
-				return true
+		if isDispatcherParent(c, cf) {
+			return true
+		}
+		// a helper of the apply loop that wraps the dispatcher call
+		if firstParty(cf) && pkgRel(cf) == "server" {
+			for _, d := range c.Facts.Dispatchers {
+				if callsTransitively(cf, d.Parent(), 0) {
+					return true
+				}
 			}
 		}
 		return false
